@@ -124,10 +124,15 @@ class _App(Client):
         self.rig.up[self.n].append({"id": int.from_bytes(bytes(apdu.pduData), "big"), "snet": snet, "smac": smac, "dk": dk})
 
 
+class _DeafApp(Client):
+    def confirmation(self, apdu):
+        pass
+
+
 class Rig:
     def __init__(self, topo, cache0=None):
         vt.reset(0.0)
-        self.topo = {"nodes": topo["nodes"]}
+        self.topo = {"nodes": topo["nodes"], "router_apps": bool(topo.get("router_apps"))}
         nn = len(topo["nodes"])
         nl = max(a["lan"] for nd in topo["nodes"] for a in nd["ads"])
         self.lans = {l: _Lan(self, l) for l in range(1, nl + 1)}
@@ -140,6 +145,10 @@ class Rig:
             if nd["app"]:
                 self.app[n] = _App(self, n)
                 bind(self.app[n], nsap)
+            elif topo.get("router_apps"):
+                # a router that is a device as well (an application on its network layer): what it hears itself is its own
+                # business (not recorded); what it forwards is what it received
+                bind(_DeafApp(), nsap)
             for ai, a in enumerate(nd["ads"], 1):
                 node = Node(Address(a["mac"]), self.lans[a["lan"]])
                 node._who = (n, ai)
